@@ -806,6 +806,21 @@ func (in *Interp) lenOfKind(st *State, k *Kind, path string, call *ast.CallExpr)
 		}
 		return in.resolveLocal(st, t)
 	}
+	// a size function that reads a field this activation has already overwritten returns the size of the
+	// updated value, not of the value the function was entered with: expand it against the strong updates
+	t := in.w.ExpandLens(ls.Term.Reroot(path), 0)
+	dep := false
+	t.HasAtom(func(a *Atom) bool {
+		if a.Kind == "val" || a.Kind == "len" {
+			if _, ok := st.fields[a.Path]; ok {
+				dep = true
+			}
+		}
+		return false
+	})
+	if dep {
+		return in.resolveLocal(st, t)
+	}
 	return LenCall(path, k.Name)
 }
 
